@@ -45,15 +45,20 @@
 (***************************************************************************)
 EXTENDS Integers, FiniteSets, Sequences, TLC
 
-VARIABLES cfg,       \* [range : set of ports, k : number of callers, atomic : BOOLEAN, ret : BOOLEAN]  constant after Init
+VARIABLES cfg,       \* [range : set of ports, k : number of callers, atomic, ret, env, sparse : BOOLEAN]  constant after Init
                      \*   ret = TRUE: a finished call waits in step "done" for its return event (trace validation);
                      \*   ret = FALSE: it becomes idle at once (exhaustive configs: returning touches nothing shared)
                      \*   env = TRUE (trace validation): ENVELOPE of both designs - reservations are tracked, an add may be
                      \*   refused as duplicate because the id is reserved, but need not be
+                     \*   sparse = TRUE (expected-fail variant): resumer.Write stores only the non-empty values of a record, so a
+                     \*   record written over a LEFTOVER bucket (a record that failed to load keeps its bucket) inherits the
+                     \*   bitfield / info dictionary of the previous owner of the id
           torrents,  \* s.torrents : id -> [h, port, p]          (h = handle identity)
           byih,      \* s.torrentsByInfoHash, as the set of [h, id] entries of all lists
           ports,     \* s.availablePorts
-          db,        \* resume database : id -> [port, p, started, bad]   (bad = record cannot be loaded)
+          db,        \* resume database : id -> [port, p, started, bad, bf]   (bad = record cannot be loaded;
+                     \*   bf = content of the bitfield key: "" nothing (what an add writes), "own" written by this torrent's own
+                     \*   verification / completion / final stats write, "left" left over from a previous owner of the bucket)
           invalid,   \* s.invalidTorrentIDs
           orphans,   \* handles that are alive (port taken, loop running) but unreachable: set of [h, id, port]
           reserved,  \* ids reserved by an add / remove in flight (always {} when ~cfg.atomic)
@@ -161,7 +166,10 @@ AddWrite(c, ok) ==
     /\ At(c, "Add", "write")
     /\ LET f == pc[c] IN
        IF ok
-       THEN /\ db' = Put(db, f.id, [port |-> f.port, p |-> f.a.p, started |-> FALSE, bad |-> FALSE])
+       THEN \* @obligation C14.record  the record of a torrent holds exactly what was written for it: a bucket that is already
+            \*   there (a record that failed to load) hands nothing down to the new owner of the id
+            /\ db' = Put(db, f.id, [port |-> f.port, p |-> f.a.p, started |-> FALSE, bad |-> FALSE,
+                                    bf |-> IF cfg.sparse /\ f.id \in DOMAIN db THEN db[f.id].bf ELSE ""])
             \* a record that could not be loaded is made whole by the rewrite; as the code is, its id stays on the
             \* invalid list and a later CleanDatabase deletes the record of the LIVE torrent
             /\ invalid' = IF cfg.atomic THEN invalid \ {f.id} ELSE invalid
@@ -187,7 +195,8 @@ AddInsert(c, stopped) ==
     /\ UNCHANGED <<cfg, ports, db, invalid, crashed>>
 
 \* resumer.WriteStarted: does nothing if the record is gone
-SetStarted(d, id, v) == IF id \in DOMAIN d THEN [d EXCEPT ![id].started = v] ELSE d
+\* (a torrent that has been started verifies its files and writes its bitfield: the key is its own from then on)
+SetStarted(d, id, v) == IF id \in DOMAIN d THEN [d EXCEPT ![id].started = v, ![id].bf = IF v THEN "own" ELSE @] ELSE d
 
 AddStarted(c) ==
     /\ At(c, "Add", "started")
@@ -318,7 +327,8 @@ ReopenViol(out) ==
     ELSE IF out # "ok" THEN "C14.reopen.failed"
     ELSE ""
 Saved == [i \in DOMAIN db |-> IF i \in DOMAIN torrents THEN [db[i] EXCEPT !.p.cnt = torrents[i].p.cnt] ELSE db[i]]
-Damaged(d, corrupt) == [i \in DOMAIN d |-> IF i \in corrupt THEN [d[i] EXCEPT !.bad = TRUE, !.port = CorruptPort] ELSE d[i]]
+\* (a record that cannot be loaded is the record of somebody's earlier life: it has a bitfield)
+Damaged(d, corrupt) == [i \in DOMAIN d |-> IF i \in corrupt THEN [d[i] EXCEPT !.bad = TRUE, !.port = CorruptPort, !.bf = "left"] ELSE d[i]]
 Loaded(d) == [i \in {j \in DOMAIN d : ~d[j].bad} |-> [h |-> 0 - d[i].port, port |-> d[i].port, p |-> d[i].p]]
 ReopenUpd(corrupt) ==
     /\ LET d == Damaged(Saved, corrupt)
@@ -395,8 +405,12 @@ IndexConsistent ==
 
 NoCrash == crashed = ""
 
+\* C14: every value stored in resume data reads back equal to what was written - a loadable record holds nothing of a
+\* previous owner of its bucket
+RecordIsOwn == \A i \in DOMAIN db : ~db[i].bad => db[i].bf # "left"
+
 ReservedOnlyInFlight == Quiescent => reserved = {}
 
 Inv == DistinctPorts /\ PortsPartition /\ NoOrphans /\ Conservation /\ RegistryIsDatabase /\ IndexConsistent
-       /\ NoCrash /\ ReservedOnlyInFlight
+       /\ NoCrash /\ ReservedOnlyInFlight /\ RecordIsOwn
 =============================================================================
